@@ -11,6 +11,8 @@ import (
 	"github.com/advancedclimatesystems/gonnx/onnx"
 	"github.com/advancedclimatesystems/gonnx/ops"
 	"gorgonia.org/tensor"
+
+	"verif/harness/ref"
 )
 
 // Event is one observation made by the operator proxy (monitor M2).
@@ -31,6 +33,8 @@ type Event struct {
 	InAfter   []Fingerprint
 	Out       []tensor.Tensor
 	OutFp     []Fingerprint
+	InVals    []*ref.T // values of the inputs as read immediately before Apply
+	OutVals   []*ref.T // values of the outputs as read immediately after Apply
 	NodeProto *onnx.NodeProto
 }
 
@@ -179,8 +183,10 @@ func (o *proxyOp) Apply(in []tensor.Tensor) ([]tensor.Tensor, error) {
 	e := Event{Node: o.node, Phase: "apply", OpType: o.opType, Inner: o.inner, NIn: len(in), NilIn: nils(in), In: append([]tensor.Tensor{}, in...), NodeProto: o.np}
 	if !o.p.Light {
 		e.InBefore = make([]Fingerprint, len(in))
+		e.InVals = make([]*ref.T, len(in))
 		for i, t := range in {
 			e.InBefore[i] = Fp(t)
+			e.InVals[i], _ = readBack(t)
 		}
 	}
 	out, err := o.inner.Apply(in)
@@ -192,8 +198,10 @@ func (o *proxyOp) Apply(in []tensor.Tensor) ([]tensor.Tensor, error) {
 			e.InAfter[i] = Fp(t)
 		}
 		e.OutFp = make([]Fingerprint, len(out))
+		e.OutVals = make([]*ref.T, len(out))
 		for i, t := range out {
 			e.OutFp[i] = Fp(t)
+			e.OutVals[i], _ = readBack(t)
 		}
 	}
 	o.p.record(e)
